@@ -779,12 +779,13 @@ class Representation:
             subrep._set_generator(g, self._word_value(word),
                                   compute_inverse=compute_inverse)
             if not compute_inverse:
+                # build the inverse word as a list of generators, so
+                # that multi-character names survive
+                inverse_word = [self.invert_gen(h)
+                                for h in self.parse_word(word)[::-1]]
                 subrep._set_generator(
                     self.invert_gen(g),
-                    self._word_value(
-                        utils.words.formal_inverse(
-                            word, inverse_map=self.invert_gen)
-                    )
+                    self._word_value(inverse_word, parse_simple=True)
                 )
 
         return subrep
@@ -864,7 +865,10 @@ class Representation:
         else:
             product_rep = Representation()
             for gen in self.asym_gens():
-                tens = np.tensordot(self[gen], rep[gen], axes=0)
+                # (not self[gen]: indexing parses a name character by
+                # character, which fails for multi-character names)
+                tens = np.tensordot(self.generators[gen],
+                                    rep.generators[gen], axes=0)
                 elt = np.concatenate(np.concatenate(tens, axis=1), axis=1)
                 product_rep[gen] = np.array(elt)
             return product_rep
@@ -884,7 +888,7 @@ class Representation:
         proj = symmetric_projection(self._dim)
         square_rep = Representation()
         for g in self.asym_gens():
-            square_rep[g] = proj @ tensor_rep[g] @ incl
+            square_rep[g] = proj @ tensor_rep.generators[g] @ incl
 
         return square_rep
 
